@@ -995,6 +995,21 @@ def fvm_cmd(clsname, h):
     return '[' + ','.join(shown) + '] ' + show_comps(components)
 
 
+def pssl2_cmd(h):
+    from cryptoparser.tls.record import SslRecord
+    obj, n = SslRecord.parse_immutable(bytes.fromhex('' if h == '-' else h))
+    return '%d %s n=%d' % (int(obj.message.get_message_type()), hx(obj.message.compose()), n)
+
+
+def cssl2_cmd(t, h):
+    from cryptoparser.tls.record import SslRecord
+    from cryptoparser.tls.subprotocol import SslErrorMessage, SslErrorType
+    if int(t) != 0:
+        raise TypeError('not constructible')
+    code = int.from_bytes(bytes.fromhex(h), 'big')
+    return hx(SslRecord(SslErrorMessage(SslErrorType(code))).compose())
+
+
 def hline_cmd(strict, h):
     from cryptoparser.httpx.header import HttpHeaderFieldUnparsed, HttpHeaderFieldServer
     data = bytes.fromhex('' if h == '-' else h)
@@ -1023,7 +1038,7 @@ def banner_dec(h):
 
 COMMANDS = {
     'bannerenc': banner_enc, 'bannerdec': banner_dec,
-    'nvl': nvl_cmd, 'fvm': fvm_cmd, 'hline': hline_cmd,
+    'nvl': nvl_cmd, 'fvm': fvm_cmd, 'hline': hline_cmd, 'pssl2': pssl2_cmd, 'cssl2': cssl2_cmd,
     'tpktenc': tpkt_enc, 'cotpenc': cotp_enc, 'pcotp': p_cotp, 'rdpnegenc': rdp_neg_enc, 'mysqlpktenc': mysql_pkt_enc,
     'mysqlssl41': mysql_ssl41, 'mysqlhs': mysql_hs, 'mysqlssl320': mysql_ssl320, 'ovpnctl': ovpn_ctl, 'ovpntcp': ovpn_tcp, 'pgssl': pg_ssl,
     'sshpad': ssh_pad, 'mpintspec': mpint_spec, 'kexenc': kex_enc, 'kexdec': kex_dec,
